@@ -219,7 +219,7 @@ def rule_typestate(F, ev_unused, R, config, rule="R-TYPESTATE"):
                 okk = False
                 for term, vals, sw in raw:
                     if term[0] == "discr" and isinstance(vals, tuple):
-                        variants, _, _ = discr_variants(b, sw["block"])
+                        variants, _, _ = discr_variants(sw.get("body", b), sw["block"])
                         names = dict(variants or [])
                         if all(names.get(x) == "Ok" for x in vals if x != "otherwise") and contains(term, lambda y: y[0] == "agg" and y[1] == ADT_BUILDERR):
                             okk = True
@@ -370,7 +370,7 @@ def rule_build_guards(F, ev, R, config, rule="R-BUILD-GUARDS"):
                 for term, vals, sw in raw:
                     if term[0] != "discr" or not isinstance(vals, tuple):
                         continue
-                    variants, _, _ = discr_variants(b, sw["block"])
+                    variants, _, _ = discr_variants(sw.get("body", b), sw["block"])
                     names = dict(variants or [])
                     if not all(names.get(x) == "Continue" for x in vals if x != "otherwise"):
                         continue
